@@ -19,7 +19,8 @@ ORACLES = {
                     "intersection / jaccard_index / join / merge, get_hashes, load_factor, validate_metadata, print(file=)",
     "C19.clear": "after clear(): bytes, counters, tables and all probe answers equal those of a freshly constructed object with the same "
                  "parameters, and the same follow-up operations keep the two identical",
-    "C19.no_exception": "no read-only call raises",
+    "C19.read_raises": "no read-only call (and no clear()) raises",
+    "C19.no_exception": "(soft) an exception while BUILDING the state abandons the case; counted, not reported",
 }
 RULE = ("State = configuration + history from the shared drivers (Bloom, on-disk, expanding, rotating, counting Bloom, CountMinSketch, "
         "HeavyHitters, StreamThreshold, both cuckoo filters, quotient filter); then 3-12 generated read-only calls with present and absent "
@@ -65,7 +66,7 @@ def strategy(tier):
     return st.tuples(base, extra).map(lambda t: dict(t[0], **t[1]))
 
 
-NX = "C19.no_exception"
+NX = "C19.read_raises"
 
 
 class T:
@@ -308,6 +309,7 @@ def run_case(case, ctx):
     s = case["s"]
     d = None
     t = None
+    ctx.soft_noexc = True  # state building
     try:
         if s == "bloom":
             d = bloom.BloomDriver(case, ctx, {})
@@ -350,6 +352,7 @@ def run_case(case, ctx):
             t = _qf_target(ctx, d, case)
             pool = d.pool
         keys = pool + [dk(k) for k in case["probes"]]
+        ctx.soft_noexc = False  # the read-only calls and clear() are the subject
         used = set()
         absent_query = False
         for ri, ki, dep in case["reads"]:
